@@ -34,12 +34,15 @@ def depth(tier):
 
 
 def bound(tier):
-    return dict(depth=depth(tier), models=2, files=2, metadata_objects=["None", "{}", "{'a':1}", "{'nested':{'x':[1,2.5,'s']}}", "{'t':tensor}"][:3 if tier == "quick" else 5],
+    return dict(depth=depth(tier), core_alphabet_depth=depth(tier) + 1, models=2, files=2, metadata_objects=["None", "{}", "{'a':1}", "{'nested':{'x':[1,2.5,'s']}}", "{'t':tensor}"][:3 if tier == "quick" else 5],
                 shapes=KINDS, operations="randomise(m), train(m0), add_unitary(m0), save(m,f,md), load(m,f), autoload(f), save with reserved key, ModelSaver.on_epoch_end")
 
 
 def roots(tier):
-    return [dict(kind=k, arch=a, tier=tier) for k, a in KINDS.items()]
+    out = [dict(kind=k, arch=a, tier=tier, alphabet="full", depth=depth(tier)) for k, a in KINDS.items()]
+    # one level deeper over the core operations (write - read - change - write - read patterns)
+    out += [dict(kind=k, arch=a, tier=tier, alphabet="core", depth=depth(tier) + 1) for k, a in KINDS.items()]
+    return out
 
 
 def n_md(root):
@@ -47,6 +50,11 @@ def n_md(root):
 
 
 def ops(root, tier):
+    if root.get("alphabet") == "core":
+        out = [["rand", 0]] + ([["addU", 0]] if root["kind"] != "positive" else [])
+        out += [["save", m, f, k] for m in (0, 1) for f in (0, 1) for k in (0, 2)]
+        out += [["load", m, f] for m in (0, 1) for f in (0, 1)] + [["autoload", 0], ["autoload", 1]]
+        return out
     out = [["rand", 0], ["rand", 1], ["train", 0]]
     if root["kind"] != "positive":
         out.append(["addU", 0])
@@ -75,7 +83,7 @@ def enabled(root, h, op):
 
 
 def root_key(root):
-    return "init:" + root["kind"]
+    return "init:" + root["kind"] + root.get("alphabet", "")
 
 
 def H(t):
